@@ -50,6 +50,9 @@ var registry = map[string]*Prop{}
 // Register adds a property check.
 func Register(p *Prop) { registry[p.ID] = p }
 
+// Get returns a registered property check (nil if unknown); used to add units to an existing check.
+func Get(id string) *Prop { return registry[id] }
+
 // UnitResult is what a worker reports for one unit.
 type UnitResult struct {
 	Name   string
